@@ -355,7 +355,10 @@ fn slow_links(s: usize, public: bool, one_way_ms: u64, out: &mut Partial) {
     let mut addrs: Vec<SocketAddrV4> = vec![];
     let mut problems: Vec<(String, String)> = vec![];
     for j in 0..s {
-        let boots: Vec<SocketAddrV4> = if j == 0 { vec![] } else { vec![addrs[0]] };
+        // five and more nodes: a joiner's bootstrap list names every earlier server, so its
+        // bootstrap attempts are bursts of 4 / 8 requests - exactly the capacities its in-flight
+        // table grows through (the table reclaims entries only when it is exactly full)
+        let boots: Vec<SocketAddrV4> = if j == 0 { vec![] } else if s >= 5 { addrs[..j].to_vec() } else { vec![addrs[0]] };
         let n = w.add_node(NodeCfg::new(node_ip(j, public), 6881).server().bootstrap(&boots).id(id_class(j, 0x3E)));
         nodes.push(n);
         addrs.push(w.node_addr(n));
@@ -578,7 +581,7 @@ fn run(tier: Tier, shard: usize, nshards: usize, _seed: u64) -> Partial {
     }
     // slow links (round trip above the initial request timeout)
     let mut unit = 0;
-    for s in [2usize, 3] {
+    for s in [2usize, 3, 5, 9] {
         for public in [true, false] {
             for one_way in [300u64, 350, 600] {
                 unit += 1;
